@@ -17,7 +17,7 @@ ASSUMPTIONS = ['LM scores are compared within 1e-8 (float64 LMs)', 'ties of the 
                'the "LM state returned" is compared with the state after the arg-max transcript from the same start state']
 N = {'quick': 1600, 'thorough': 60000}
 CLASSES = ['hash', 'hash', 'hash_init', 'hash_scale0', 'torch', 'hash_eos', 'hash', 'torch_init', 'hash_sequence', 'torch_sequence', 'homographs', 'wide_beam']
-REQUIRED = ['homograph_alphabets', 'beams_over_1024_prefixes', 'torch_lms_arriving_in_training_mode', 'reweighted_bag_checked', 'shifted_bag_checked', 'sequence_calls_checked', 'lm_scores_checked', 'best_checked', 'scale0_checked', 'confidence_checked', 'state_checked', 'beam_compared', 'torch_cases', 'nonunit_scale_best_checked']
+REQUIRED = ['torch_lms_with_the_line_end_symbol_first', 'factory_built_decoders', 'homograph_alphabets', 'beams_over_1024_prefixes', 'torch_lms_arriving_in_training_mode', 'reweighted_bag_checked', 'shifted_bag_checked', 'sequence_calls_checked', 'lm_scores_checked', 'best_checked', 'scale0_checked', 'confidence_checked', 'state_checked', 'beam_compared', 'torch_cases', 'nonunit_scale_best_checked']
 SHARDS = {'quick': 8, 'thorough': 16}
 
 
@@ -74,7 +74,10 @@ def check(case, mon, ctx):
     if is_torch:
         mon.count('torch_cases')
         trained = case['lm_seed'] % 2 == 0
-        raw_in = ctx.stubs.make_lstm_lm(letters, case['lm_seed'], dim=int(8 + case['lm_seed'] % 9), dropout=0.3 if trained else 0.0, train_mode=trained)
+        raw_in = ctx.stubs.make_lstm_lm(letters, case['lm_seed'], dim=int(8 + case['lm_seed'] % 9), dropout=0.3 if trained else 0.0, train_mode=trained,
+                                        eos_first=(case['lm_seed'] // 2) % 2 == 1)
+        if (case['lm_seed'] // 2) % 2 == 1:
+            mon.count('torch_lms_with_the_line_end_symbol_first')
         if trained:
             mon.count('torch_lms_arriving_in_training_mode')
         raw = copy.deepcopy(raw_in).eval()            # the oracle's own copy of the model, in inference mode
@@ -241,7 +244,7 @@ def check_sequence(case, mon, ctx, lm, letters, is_torch):
 
     def fresh():
         if is_torch:
-            raw = ctx.stubs.make_lstm_lm(letters, case['lm_seed'], dim=int(8 + case['lm_seed'] % 9))
+            raw = ctx.stubs.make_lstm_lm(letters, case['lm_seed'], dim=int(8 + case['lm_seed'] % 9), eos_first=(case['lm_seed'] // 2) % 2 == 1)
             l2 = ctx.LMWrapper(raw, letters, torch.device('cpu'))
         else:
             l2 = ctx.stubs.HashLM(C - 1, case['lm_seed'])
@@ -264,3 +267,37 @@ def check_sequence(case, mon, ctx, lm, letters, is_torch):
                           'call_index': n, 'long_lived': got[0][:4], 'fresh': exp[0][:4], 'state_differs': got[1] != exp[1]})
             break
     mon.mark_nontrivial()
+
+
+def extra(mon, ctx):
+    """decoders built by decoder_factory from a configuration section that names a TorchScript LM file, at LM scales 0 / 0.5 / 2: the reported LM scores
+    are the model's own whatever the scale"""
+    if ctx.shard != 0:
+        return
+    import configparser
+    import os
+    from brnolm.language_models import language_model
+    from pero_ocr.decoding import decoding_itf
+    torch = ctx.torch
+    letters = list('abc')
+    raw = ctx.stubs.make_lstm_lm(letters, 4242, dim=8, double=False)
+    language_model.torchscript_export(raw, os.path.join(ctx.tmpdir, 'lm.zip'))
+    rng = np.random.default_rng([ctx.seed, 3, 777])
+    for scale in ('0', '0.0', '0.5', '2'):
+        cfg = configparser.ConfigParser()
+        cfg.read_dict({'DECODER': {'TYPE': 'FAST-LOG-RAW', 'BEAM_SIZE': '4', 'LM_SCALE': scale, 'USE_CPU': 'yes', 'LM': './lm.zip'}})
+        import contextlib
+        import io
+        with contextlib.redirect_stderr(io.StringIO()), contextlib.redirect_stdout(io.StringIO()):
+            dec = decoding_itf.decoder_factory(cfg['DECODER'], letters, torch.device('cpu'), config_path=ctx.tmpdir)
+        for _ in range(6 if ctx.tier == 'quick' else 60):
+            lp = make_matrix(rng, str(rng.choice(['rand', 'peaky', 'repeats'])), int(rng.integers(1, 7)), 4)
+            boh = dec(lp.copy())
+            mon.count('factory_built_decoders')
+            mon.count('extra_evaluations')
+            mon.cur_desc = {'leg': 'decoder_factory', 'LM_SCALE': scale, 'log_probs': lp}
+            for h in boh:
+                exp, _ = ctx.stubs.lstm_lm_score(raw, [letters.index(ch) for ch in h.transcript])
+                if h.lm_sc is None or abs(float(h.lm_sc) - exp) > 1e-3:
+                    mon.violation('lm-score-is-the-models-own', {'via': 'decoder_factory with LM_SCALE = %s' % scale, 'transcript': h.transcript, 'lm_sc': None if h.lm_sc is None else float(h.lm_sc), 'expected': exp})
+                    break
